@@ -149,6 +149,13 @@ def families(tier, rng):
         for cons in ["", "w,", "w…_", "w", "w:,_", ",", "L,", "wL,"]:
             for fl in ("", "W"):
                 out.append((prod + cons, fl, inp[0]))
+    # G  a lazily produced list of TEXTS written more than once (the same object again, a copy after the original,
+    #    the implicit output after an explicit one): the text of a list does not depend on what was printed before
+    #    (genuine defect, repaired: fix 38e3b6a -- items produced earlier lost their quotes)
+    for prod in ["⟨`ab`|`c`⟩¦", "⟨`ab`|1⟩ƛ;", "⟨`a`|`b`⟩ƛ:+;", "⟨`x`⟩⟨`y`⟩J¦", "⟨`ab`|2⟩ƛ…;", "⟨`a`|`b`|`c`⟩'1;"]:
+        for cons in ["……_", "…,", ":,,", "…", "…:,_", "…h_…_", ",", "w…,"]:
+            for fl in ("", "o", "W"):
+                out.append((prod + cons, fl, inp[0]))
     for st in MOD_STACKS[:4]:
         for o in ["λ_;", "λ2|$-;", "λ3|_$-;", "λ1;"]:
             out.append((st + "≬" + o + "WvN†", "W", inp[1]))
